@@ -110,15 +110,20 @@ def run(ctx, out):
     quick = ctx.tier == "quick"
     sup = core.build_sup()
     out.rule = ("for small copies (single file with mode/mtime/xattr, overwrite with numbered backup, tree with nested dirs, link, "
-                "FIFO) and both drivers: a reference trace, then one run per (system call touching the sandbox) x errno from {EIO "
+                "FIFO) and both drivers, with --block-size 16KB and (file, tree) with --no-progress -v: a reference trace, then one run per (system call touching the sandbox) x errno from {EIO "
                 "ENOSPC EACCES EMFILE EROFS EEXIST EPERM}, keyed by (syscall, path, n-th occurrence); exit 0 must imply a complete "
                 "and correct destination incl. mode/mtime; thorough adds random pairs of faults. non-trivial = the injection "
                 "fired; distinct = (case, driver, call, errno)")
     d0 = ctx.work.fresh("c04")
     mcodes, mobs = [], []
-    for kind in ("file", "overwrite-backup", "tree", "sparse"):
+    # option sets: the failure must surface whichever way the configuration routes it (with a progress bar the block
+    # size is 16 KB and errors of block jobs travel over the update channel; --no-progress = one block per file, no bar)
+    for (kind, optset) in [("file", "std"), ("overwrite-backup", "std"), ("tree", "std"), ("sparse", "std"),
+                           ("file", "noprogress"), ("tree", "noprogress")]:
         for driver in ("parfile", "parblock"):
-            d = os.path.join(d0, "%s_%s" % (kind, driver))
+            d = os.path.join(d0, "%s_%s_%s" % (kind, driver, optset))
+            if optset != "std" and quick and (kind, driver) == ("tree", "parfile"):
+                continue
 
             def setup():
                 shutil.rmtree(d, ignore_errors=True)
@@ -126,9 +131,11 @@ def run(ctx, out):
                 return world(d, kind)
             tail, pairs = setup()
             destroot = os.path.join(d, "dst") if kind != "file" else os.path.join(d, "g")
-            argv = [ctx.bins["xcp"], "--driver", driver, "-w", "2", "--block-size", "16KB", "--fsync", "--reflink", "never"] + tail
+            argv = [ctx.bins["xcp"], "--driver", driver, "-w", "2"] + (["--block-size", "16KB"] if optset == "std" else ["--no-progress", "-v"]) + \
+                ["--fsync", "--reflink", "never"] + tail
+            out.count("options_" + optset)
             ref = xcp.run_supervised(sup, argv, d, d, tag="ref")
-            out.case(("ref", kind, driver), True)
+            out.case(("ref", kind, driver, optset), True)
             if ref.exit != 0 or dest_correct(d, kind, pairs):
                 out.violation("fault-free reference run failed or produced a wrong destination",
                               dict(argv=argv[1:], exit=ref.exit, why=dest_correct(d, kind, pairs), stderr=ref.stderr[-300:]))
@@ -167,7 +174,7 @@ def run(ctx, out):
                 r = xcp.run_supervised(sup, argv, d, d, rules=rules, tag="f", timeout_ms=20000)
                 fired = [x for x in r.trace if x.get("inj")]
                 desc = [(e["sys"], e["p1"][len(d):], nth, en) for (e, nth, en) in plan]
-                out.case(("fault", kind, driver, tuple(desc)), nontrivial=bool(fired))
+                out.case(("fault", kind, driver, optset, tuple(desc)), nontrivial=bool(fired))
                 out.count("fault_%s" % plan[0][0]["sys"])
                 rep = dict(case=kind, driver=driver, argv=argv[1:], faults=desc, exit=r.exit, stderr=r.stderr[-300:])
                 if r.meta.get("timeout"):
